@@ -30,12 +30,12 @@ PY
 }
 (cd "$R" && cargo nextest run --workspace --no-fail-fast --tool-config-file pb:/w/lib/nextest.toml --profile pb --test-threads 8 --offline) > "$LOG" 2>&1
 collect
-for round in 1 2 3; do
+for round in 1 2 3 4 5 6 7 8; do
   M=$(missing)
   [ -z "$M" ] && break
   FILTER=""
   for t in $M; do n=${t#*::}; n2=${n#*::}; FILTER="$FILTER${FILTER:+ | }test(=$n) | test(=$n2)"; done
-  (cd "$R" && cargo nextest run --workspace --no-fail-fast --tool-config-file pb:/w/lib/nextest.toml --profile pb --test-threads 2 --offline -E "$FILTER") >> "$LOG" 2>&1
+  (cd "$R" && cargo nextest run --workspace --no-fail-fast --tool-config-file pb:/w/lib/nextest.toml --profile pb --test-threads 1 --offline -E "$FILTER") >> "$LOG" 2>&1
   collect
 done
 M=$(missing)
